@@ -741,4 +741,251 @@ theorem emitW_calls (cfg : ECfg) (hp : PlainW cfg) (k : Kind) :
       | cons c' r' => exact r6 hw (c6 hw)
 end
 
+
+/-! ### properties of the specified stream -/
+
+def Out.time : Out → Nat
+  | .record r _ => r.time
+  | .event e => e.time
+
+theorem mem_takeWhile_sat {α : Type} (p : α → Bool) : ∀ (l : List α) (a : α), a ∈ l.takeWhile p → p a = true := by
+  intro l
+  induction l with
+  | nil => intro a h; simp at h
+  | cons x r ih =>
+    intro a h
+    simp only [List.takeWhile] at h
+    split at h
+    · rename_i hx
+      simp only [List.mem_cons] at h
+      rcases h with rfl | h
+      · exact hx
+      · exact ih a h
+    · simp at h
+
+theorem entryEvs_time (F : EFrame) : ∀ e ∈ entryEvs F, e.time = F.b.start := by
+  intro e he
+  unfold entryEvs at he
+  have := mem_takeWhile_sat _ _ e he
+  simpa using this
+
+theorem filterMap_recOf_comp (l : List Ev) : l.filterMap (recOf ∘ Out.event) = [] := by
+  induction l with
+  | nil => rfl
+  | cons e r ih => simp [recOf, ih]
+
+theorem exitEvs_time (X : EFrame) : ∀ e ∈ exitEvs X, e.time = X.b.endT := by
+  intro e he
+  unfold exitEvs at he
+  have := (List.mem_filter.mp he).2
+  simpa using this
+
+theorem exitFrame_endT (cfg : ECfg) (F : EFrame) (t1 d : Nat) (o : Obs) : (exitFrame cfg F t1 d o).b.endT = t1 := by
+  unfold exitFrame; rw [(exitArea_b cfg (setEnd F t1) (d + 1) o).1]; rfl
+
+theorem exitFrame_hookTime (cfg : ECfg) (F : EFrame) (t1 d : Nat) (o : Obs) (h : t1 ≠ 0) :
+    hookTime (exitFrame cfg F t1 d o).b = t1 := by
+  simp [hookTime, exitFrame_endT, h]
+
+mutual
+theorem recsW_specCall (cfg : ECfg) (k : Kind) : ∀ (d : Nat) (w : ESt) (c : ECall),
+    (specWCall cfg k d w c).1.filterMap recOf = evCall d c.erase
+  | d, w, .node f t0 t1 oE oX kids => by
+    have hk := recsW_specCalls cfg k (d + 1) (wNext cfg w (entryFrame cfg k f t0 d oE).b d oE) kids
+    simp only [specWCall, exitOut, entryOut_entryFrame, exitRecord_exitFrame]
+    split <;>
+    simp [List.filterMap_append, filterMap_recOf_events, filterMap_recOf_comp, hk, ECall.erase, evCall, recOf]
+theorem recsW_specCalls (cfg : ECfg) (k : Kind) : ∀ (d : Nat) (w : ESt) (cs : ECalls),
+    (specWCalls cfg k d w cs).1.filterMap recOf = evCalls d cs.erase
+  | d, w, .nil => by simp [specWCalls, ECalls.erase, evCalls]
+  | d, w, .cons c rest => by
+    simp [specWCalls, ECalls.erase, evCalls, recsW_specCall cfg k d w c,
+      recsW_specCalls cfg k d (specWCall cfg k d w c).2 rest]
+end
+
+
+theorem wNext_winited (cfg : ECfg) (w : ESt) (b : Frame) (ri : Nat) (o : Obs) (h : cfg.watch = true) :
+    (wNext cfg w b ri o).winited = true := watchStep_winited cfg _ b ri o h
+
+mutual
+theorem specW_winited_call (cfg : ECfg) (k : Kind) (h : cfg.watch = true) : ∀ (d : Nat) (w : ESt) (c : ECall),
+    (specWCall cfg k d w c).2.winited = true
+  | d, w, .node f t0 t1 oE oX kids => by
+    simp only [specWCall]
+    exact wNext_winited cfg _ _ _ _ h
+theorem specW_winited_calls (cfg : ECfg) (k : Kind) (h : cfg.watch = true) : ∀ (d : Nat) (w : ESt) (cs : ECalls),
+    w.winited = true → (specWCalls cfg k d w cs).2.winited = true
+  | d, w, .nil, hw => by simpa [specWCalls] using hw
+  | d, w, .cons c rest, hw => by
+    simp only [specWCalls]
+    exact specW_winited_calls cfg k h d _ rest (specW_winited_call cfg k h d w c)
+end
+
+/-- the events a call's own hooks put between its ENTRY and EXIT, and the callees' records -/
+def innerOf (cfg : ECfg) (k : Kind) (d : Nat) (w : ESt) : ECall → List Out
+  | .node f t0 t1 oE oX kids =>
+    (entryEvs (entryFrame cfg k f t0 d oE)).map .event ++
+      (if w.winited then [] else (wEvents cfg w (entryFrame cfg k f t0 d oE).b d oE).map .event) ++
+      (specWCalls cfg k (d + 1) (wNext cfg w (entryFrame cfg k f t0 d oE).b d oE) kids).1 ++
+      (wEvents cfg (specWCalls cfg k (d + 1) (wNext cfg w (entryFrame cfg k f t0 d oE).b d oE) kids).2
+        (exitFrame cfg (entryFrame cfg k f t0 d oE) t1 d oX).b d oX).map .event ++
+      (exitEvs (exitFrame cfg (entryFrame cfg k f t0 d oE) t1 d oX)).map .event
+
+/-- the watch events of the entry hook that precede ENTRY (none for the first observation) -/
+def beforeOf (cfg : ECfg) (k : Kind) (d : Nat) (w : ESt) : ECall → List Out
+  | .node f t0 _ oE _ _ =>
+    if w.winited then (wEvents cfg w (entryFrame cfg k f t0 d oE).b d oE).map .event else []
+
+theorem specWCall_shape (cfg : ECfg) (k : Kind) (d : Nat) (w : ESt) (f t0 t1 : Nat) (oE oX : Obs) (kids : ECalls) :
+    (specWCall cfg k d w (.node f t0 t1 oE oX kids)).1 =
+      beforeOf cfg k d w (.node f t0 t1 oE oX kids) ++
+        [.record { time := t0, type := 0, depth := d, addr := f } (argPayload cfg k f)] ++
+        innerOf cfg k d w (.node f t0 t1 oE oX kids) ++
+        [.record { time := t1, type := 1, depth := d, addr := f } (retPayloadOf cfg k f)] := by
+  simp only [specWCall, beforeOf, innerOf, exitOut, entryOut_entryFrame, exitRecord_exitFrame]
+  split <;> simp [List.append_assoc]
+
+mutual
+theorem specW_times_call (cfg : ECfg) (k : Kind) : ∀ (d : Nat) (w : ESt) (c : ECall) (tl : Nat), c.spaced tl →
+    ∀ x ∈ (specWCall cfg k d w c).1, tl + 1 ≤ x.time ∧ x.time ≤ c.lastT
+  | d, w, .node f t0 t1 oE oX kids, tl, hsp => by
+    simp only [ECall.spaced] at hsp
+    have hle := spaced_calls_le kids t0 hsp.2.1
+    have hk := specW_times_calls cfg k (d + 1) (wNext cfg w (entryFrame cfg k f t0 d oE).b d oE) kids t0 hsp.2.1
+    have hFb := entryFrame_b cfg k f t0 d oE
+    have hWE : ∀ e ∈ wEvents cfg w (entryFrame cfg k f t0 d oE).b d oE, e.time = (if w.winited then t0 - 1 else t0 + 1) := by
+      intro e he
+      rw [(wEvents_time cfg w _ d oE e he).1, hFb, watchTime_entry]
+    have hWX : ∀ e ∈ wEvents cfg (specWCalls cfg k (d + 1) (wNext cfg w (entryFrame cfg k f t0 d oE).b d oE) kids).2
+        (exitFrame cfg (entryFrame cfg k f t0 d oE) t1 d oX).b d oX, e.time + 1 = t1 := by
+      intro e he
+      by_cases hw : cfg.watch = true
+      · have h1 := (wEvents_time cfg _ _ d oX e he).1
+        have hwi := specW_winited_calls cfg k hw (d + 1) (wNext cfg w (entryFrame cfg k f t0 d oE).b d oE) kids
+          (wNext_winited cfg w (entryFrame cfg k f t0 d oE).b d oE hw)
+        have h3 : hookTime (exitFrame cfg (entryFrame cfg k f t0 d oE) t1 d oX).b = t1 :=
+          exitFrame_hookTime cfg _ t1 d oX (by omega)
+        simp [watchTime, h3, hwi] at h1
+        omega
+      · rw [wEvents_nowatch cfg _ _ d oX (by simpa using hw)] at he; simp at he
+    have hEE := entryEvs_time (entryFrame cfg k f t0 d oE)
+    have hXE := exitEvs_time (exitFrame cfg (entryFrame cfg k f t0 d oE) t1 d oX)
+    have hst : (entryFrame cfg k f t0 d oE).b.start = t0 := by rw [hFb]; rfl
+    rw [specWCall_shape]
+    intro x hx
+    simp only [List.mem_append, List.mem_singleton, beforeOf, innerOf, ECall.lastT] at hx ⊢
+    rcases hx with ((hx | hx) | hx) | hx
+    · split at hx
+      · rename_i hwi
+        obtain ⟨e, he, rfl⟩ := List.mem_map.mp hx
+        have := hWE e he; simp [hwi] at this
+        simp only [Out.time]; omega
+      · simp at hx
+    · subst hx; simp only [Out.time]; omega
+    · rcases hx with (((hx | hx) | hx) | hx) | hx
+      · obtain ⟨e, he, rfl⟩ := List.mem_map.mp hx
+        have := hEE e he; simp only [Out.time]; omega
+      · split at hx
+        · simp at hx
+        · rename_i hwi
+          obtain ⟨e, he, rfl⟩ := List.mem_map.mp hx
+          have := hWE e he; simp [hwi] at this
+          simp only [Out.time]; omega
+      · have := hk x hx; omega
+      · obtain ⟨e, he, rfl⟩ := List.mem_map.mp hx
+        have := hWX e he; simp only [Out.time]; omega
+      · obtain ⟨e, he, rfl⟩ := List.mem_map.mp hx
+        have := hXE e he; rw [exitFrame_endT] at this; simp only [Out.time]; omega
+    · subst hx; simp only [Out.time]; omega
+theorem specW_times_calls (cfg : ECfg) (k : Kind) : ∀ (d : Nat) (w : ESt) (cs : ECalls) (tl : Nat), cs.spaced tl →
+    ∀ x ∈ (specWCalls cfg k d w cs).1, tl + 1 ≤ x.time ∧ x.time ≤ cs.last tl
+  | d, w, .nil, tl, _ => by simp [specWCalls]
+  | d, w, .cons c rest, tl, hsp => by
+    simp only [ECalls.spaced] at hsp
+    have h1 := specW_times_call cfg k d w c tl hsp.1
+    have h2 := specW_times_calls cfg k d (specWCall cfg k d w c).2 rest c.lastT hsp.2
+    have l1 := spaced_call_le c tl hsp.1
+    have l2 := spaced_calls_le rest c.lastT hsp.2
+    intro x hx
+    simp only [specWCalls, List.mem_append, ECalls.last] at hx ⊢
+    rcases hx with hx | hx
+    · have := h1 x hx; omega
+    · have := h2 x hx; omega
+end
+
+
+/-- everything between a call's ENTRY and EXIT carries a time stamp inside [t0, t1]; the watch events
+    written just before its ENTRY carry t0 - 1 -/
+theorem inner_times (cfg : ECfg) (k : Kind) (d : Nat) (w : ESt) (f t0 t1 : Nat) (oE oX : Obs) (kids : ECalls) (tl : Nat)
+    (hsp : (ECall.node f t0 t1 oE oX kids).spaced tl) :
+    (∀ x ∈ innerOf cfg k d w (.node f t0 t1 oE oX kids), t0 ≤ x.time ∧ x.time ≤ t1) ∧
+    (∀ x ∈ beforeOf cfg k d w (.node f t0 t1 oE oX kids), x.time + 1 = t0) := by
+  simp only [ECall.spaced] at hsp
+  have hle := spaced_calls_le kids t0 hsp.2.1
+  have hk := specW_times_calls cfg k (d + 1) (wNext cfg w (entryFrame cfg k f t0 d oE).b d oE) kids t0 hsp.2.1
+  have hFb := entryFrame_b cfg k f t0 d oE
+  have hWE : ∀ e ∈ wEvents cfg w (entryFrame cfg k f t0 d oE).b d oE, e.time = (if w.winited then t0 - 1 else t0 + 1) := by
+    intro e he
+    rw [(wEvents_time cfg w _ d oE e he).1, hFb, watchTime_entry]
+  have hWX : ∀ e ∈ wEvents cfg (specWCalls cfg k (d + 1) (wNext cfg w (entryFrame cfg k f t0 d oE).b d oE) kids).2
+      (exitFrame cfg (entryFrame cfg k f t0 d oE) t1 d oX).b d oX, e.time + 1 = t1 := by
+    intro e he
+    by_cases hw : cfg.watch = true
+    · have h1 := (wEvents_time cfg _ _ d oX e he).1
+      have hwi := specW_winited_calls cfg k hw (d + 1) (wNext cfg w (entryFrame cfg k f t0 d oE).b d oE) kids
+        (wNext_winited cfg w (entryFrame cfg k f t0 d oE).b d oE hw)
+      have h3 : hookTime (exitFrame cfg (entryFrame cfg k f t0 d oE) t1 d oX).b = t1 :=
+        exitFrame_hookTime cfg _ t1 d oX (by omega)
+      simp [watchTime, h3, hwi] at h1
+      omega
+    · rw [wEvents_nowatch cfg _ _ d oX (by simpa using hw)] at he; simp at he
+  have hEE := entryEvs_time (entryFrame cfg k f t0 d oE)
+  have hXE := exitEvs_time (exitFrame cfg (entryFrame cfg k f t0 d oE) t1 d oX)
+  have hst : (entryFrame cfg k f t0 d oE).b.start = t0 := by rw [hFb]; rfl
+  constructor
+  · intro x hx
+    simp only [List.mem_append, innerOf] at hx
+    rcases hx with (((hx | hx) | hx) | hx) | hx
+    · obtain ⟨e, he, rfl⟩ := List.mem_map.mp hx
+      have := hEE e he; simp only [Out.time]; omega
+    · split at hx
+      · simp at hx
+      · rename_i hwi
+        obtain ⟨e, he, rfl⟩ := List.mem_map.mp hx
+        have := hWE e he; simp [hwi] at this
+        simp only [Out.time]; omega
+    · have := hk x hx; omega
+    · obtain ⟨e, he, rfl⟩ := List.mem_map.mp hx
+      have := hWX e he; simp only [Out.time]; omega
+    · obtain ⟨e, he, rfl⟩ := List.mem_map.mp hx
+      have := hXE e he; rw [exitFrame_endT] at this; simp only [Out.time]; omega
+  · intro x hx
+    simp only [beforeOf] at hx
+    split at hx
+    · rename_i hwi
+      obtain ⟨e, he, rfl⟩ := List.mem_map.mp hx
+      have := hWE e he; simp [hwi] at this
+      simp only [Out.time]; omega
+    · simp at hx
+
+/-- `-W cpu` alone: the events of a hook in watch state `w` -/
+theorem wEvents_cpu (cfg : ECfg) (hc : cfg.watchCpu = true) (hv : cfg.varSizes = []) (w : ESt) (b : Frame) (ri : Nat)
+    (o : Obs) :
+    wEvents cfg w b ri o =
+      (if w.winited = false ∨ w.wcpu ≠ some o.cpu then [cpuEv (watchTime b w.winited) (watchTag cfg ri) o.cpu] else []) ∧
+    (wNext cfg w b ri o).wcpu = some o.cpu ∧ (wNext cfg w b ri o).winited = true := by
+  have hw : cfg.watch = true := by simp [ECfg.watch, hc]
+  have h4 : decide ((0 : Nat) < MAX_EVENT) = true := by decide
+  unfold wEvents wNext watchStep saveWatch
+  simp only [hw, hc, hv, ↓reduceIte, saveWatchVars, saveWatchCpu, List.length_nil, h4, Bool.and_true, watchTime, watchTag]
+  by_cases h : w.winited = false ∨ w.wcpu ≠ some o.cpu
+  · have hcnd : (w.wcpu != some o.cpu || !w.winited) = true := by
+      rcases h with h | h <;> simp [h]
+    simp [hcnd, h]
+  · have h' : w.winited = true ∧ w.wcpu = some o.cpu := by
+      constructor
+      · cases hwi : w.winited <;> simp_all
+      · by_cases hq : w.wcpu = some o.cpu <;> simp_all
+    simp [h'.1, h'.2]
+
 end Uft.Events
